@@ -45,7 +45,10 @@ m = dict(
                                  "kernels (vlib/ast2smt.py) for the bitmask algebra")],
     checks=checks,
     not_applicable=na,
-    notes="Every claim is bounded; bounds, functions encoded, solver queries and solver time are in each evidence file. "
+    notes="Genuine defects: known_findings.json (5 recorded findings printed as KNOWN-FINDING lines, 31 entries 'fixed:' with their "
+          "'fix:' commits in /repo). Seeded changes used to test the checks: seeded/<id>/<k>/ (100, see DESIGN.md 7.4; "
+          "scripts/seeds_all.sh replays them in a scratch worktree). Thorough evidence is also kept under evidence/thorough/. "
+          "Every claim is bounded; bounds, functions encoded, solver queries and solver time are in each evidence file. "
           "An INCONCLUSIVE harness (path tree not exhausted inside the time budget) is reported as such and never as success.")
 with open(os.path.join(HERE, "MANIFEST.json"), "w") as f:
     json.dump(m, f, indent=1)
